@@ -36,6 +36,9 @@ CLAIMED = {
  "C18": ("exploration", "4.11", "the simulator owns time.time() and every file timestamp (granularity 1 ns .. 2 s): a generated tree (any bytes, empty and large files, executables, symlinks incl. dangling/self-referential, nested directories, non-UTF-8 and quote-needing names) is checked out by reset --hard / checkout / clone, staged again (tree id must round-trip, content/targets/exec bits compared), then 4-14 edits (same-size and other-size modification, chmod, delete, untracked, file<->symlink<->directory, stage, unstage, rm --cached, commit, switch tree) each followed by porcelain.status compared with a three-state content model, under normal, skewed and racy clock configurations",
          "content model is the oracle (git status not consulted); autocrlf/filters off; one recorded finding covers the racy-timestamp class",
          "deterministic simulation: virtual clock and file timestamps as the controlled nondeterminism, edit histories checked stepwise against a reference model"),
+ "C14": ("exploration", "4.8", "three reader nodes on one simulated disk: A opens the repository as is, B a copy with every accelerator stripped (commit-graph, multi-pack-index, bitmaps removed, packed-refs expanded), C is a long-lived instance opened before the history continued; staleness is produced by a second process (new loose commits, new packs, pack_loose, repack, gc with immediate prune, refs deleted/moved, shallow, grafts) after the accelerators were written, mismatch by copying a commit-graph/midx/bitmap from another repository; every query (get_raw/contains of all known and some absent ids, iteration, parents, MissingObjectFinder and reachability sets, merge bases, ref map, keys) must give A = B, and C = B on objects that exist throughout and on refs",
+         "accelerators written by dulwich only; B (same code, accelerators removed) is the reference and is itself checked against the object model; queries restricted to commits whose closure still exists",
+         "deterministic simulation: multi-node differential reading of one simfs disk image, staleness and misdirected-write fault steps between accelerator write and query"),
 }
 NA = {
  "C01": "pure function of object field values / setter order: no schedule, clock, fault or I/O seam for a simulator to own (DESIGN.md section 5)",
